@@ -305,3 +305,13 @@ PROPS["C10"]["mir"] += [ob("bloom_bits_agree", "ob_bloom", "bloom_bits_agree", k
 PROPS["C17"]["mir"] += [ob("bloom_hasher_keys", "ob_bloom", "bloom_hasher_keys")]
 PROPS["C10"]["assumptions"] = PROPS["C10"]["assumptions"] + ["bloom_bits_agree: AtomicBitVec::len() = Bloom::bits_count (established by every constructor: new / from save / set_in_memory); hash values are arbitrary per hasher (the hash function itself: c17_hash_pinned_*)"]
 PROPS["C13"]["mir"] += [ob("worker_tick", "ob_worker", "worker_tick"), ob("worker_tick_deadline", "ob_worker", "worker_tick_deadline")]
+PROPS["C13"]["mir"].append(ob("process_msg_dispatch", "ob_worker", "process_msg_dispatch"))
+PROPS["C03"]["mir"].append(ob("validate_rejects_absurd_index", "ob_bptree", "validate_rejects_absurd_index"))
+PROPS["C06"]["mir"].append(ob("validate_rejects_absurd_index_c06", "ob_bptree", "validate_rejects_absurd_index"))
+PROPS["C13"]["mir"] += [ob("rotation_decision", "ob_worker", "rotation_decision"), ob("rotation_request", "ob_worker", "rotation_request")]
+PROPS["C04"]["mir"] += [ob("rotation_decision_c04", "ob_worker", "rotation_decision")]
+PROPS["C09"]["mir"] += [ob("find_leaf_descent", "ob_tree", "find_leaf_descent", kwargs={"D": 3}), ob("go_right_file_run", "ob_tree", "go_right_file_run", kwargs={"R": 3}, thorough_kwargs={"R": 5})]
+PROPS["C16"]["mir"] += [ob("writer_revalidates", "ob_tools", "writer_revalidates", kwargs={"N": 2}, thorough_kwargs={"N": 3})]
+PROPS["C13"]["mir"].append(ob("dump_all_old_blobs", "ob_worker", "dump_all_old_blobs", kwargs={"B": 2}, thorough_kwargs={"B": 3}))
+PROPS["C12"]["mir"].append(ob("dump_all_old_blobs_c12", "ob_worker", "dump_all_old_blobs", kwargs={"B": 2}))
+PROPS["C01"]["mir"] += [ob("find_leaf_descent_c01", "ob_tree", "find_leaf_descent", kwargs={"D": 3}), ob("go_right_file_run_c01", "ob_tree", "go_right_file_run", kwargs={"R": 3})]
